@@ -32,7 +32,8 @@ ASSUMPTIONS = [
 RULE = ("two-party histories for every payload length in {0..8} and +-8 around MAX_PAYLOAD_SIZE, MAX_PAYLOAD_SIZE-FRAGMENT_OVERHEAD, "
         "k*MAX_FRAGMENT_SIZE (k<=4) and the last-fragment bounds at MTU 512, 576, 1095..1098, 1280, 1500, sent with RETRY_ON_TIMEOUT (and "
         "mixed with unretried / BEST_EFFORT traffic), under loss patterns (each single datagram lost, pairs, bursts, all acks lost for "
-        "several time-outs) followed by a healed network; compared with the model: deliveries, queues, resend sets, callbacks; the monitor "
+        "several time-outs) followed by a healed network; a guaranteed message overtaken by 40..520 newer messages before its retransmission "
+        "arrives (lost or reordered first datagram); compared with the model: deliveries, queues, resend sets, callbacks; the monitor "
         "requires every guaranteed payload at the peer after quiescence and empty sender queues; plus the real UdpClient.send_guaranteed and "
         "ServerClientConnection.send_guaranteed entry points; non-trivial = a guaranteed message was delivered after at least one "
         "retransmission")
@@ -120,6 +121,62 @@ def gen_size_case(real, rng, cid, mtu, lengths, loss_plan, later=(), lossy=None)
                 emit("tmo %s t=%d" % (e, t))
             a = run.eps["a"]["conn"]
             if t > lossy_until + 1200 and not a.outgoing_messages and not a.pending_retry_msg and not a.pending_callbacks:
+                break
+        emit("dump a")
+        emit("dump b")
+    finally:
+        run.close()
+    lines.append("end")
+    return lines
+
+
+def gen_overtaken_case(real, rng, cid, mtu, n_other, fault):
+    """a guaranteed message whose first datagram is lost (or held back) is overtaken by n_other newer messages that all arrive before
+    its retransmission does: however far behind the receiver's newest message number it then is, it has never been delivered and must be"""
+    lines = ["case %s" % cid]
+    glog = []
+    run = connlib.CaseRun(real, log=glog, snapshots=False)
+
+    def emit(line):
+        lines.append(line)
+        return run.exec(line)
+    try:
+        t = connlib.BASE_T
+        emit("now %d" % t)
+        emit("mtu %d" % mtu)
+        emit("new a client")
+        emit("new b server")
+        for e in "ab":
+            emit("set %s key=%s status=2 si=16 ka=96 ot=1024" % (e, connlib.KEY.hex()))
+        seed = rng.randint(1, 10 ** 6)
+        for w in range(2):
+            t += 17
+            for e, p in (("a", "b"), ("b", "a")):
+                seed += 1
+                emit("send %s len=%d seed=%d retry=0 cb=-" % (e, 9 + w, seed))
+                o = emit("build %s t=%d" % (e, t))
+                if o and o[0].startswith("pkt"):
+                    emit("recv %s t=%d d=@%s:%d" % (p, t, e, len(run.eps[e]["emits"]) - 1))
+        seed += 1
+        emit("send a len=%d seed=%d retry=-1 cb=1" % (rng.choice([0, 1, 20, 300]), seed))
+        t += 17
+        emit("build a t=%d" % t)
+        held = len(run.eps["a"]["emits"]) - 1          # the datagram carrying the guaranteed message: lost, or delivered late
+        for i in range(n_other):
+            seed += 1
+            emit("send a len=%d seed=%d retry=0 cb=-" % (rng.choice([0, 1, 2]), seed))
+        for _ in range(400):
+            t += 17
+            for e, p in (("a", "b"), ("b", "a")):
+                o = emit("build %s t=%d" % (e, t))
+                if o and o[0].startswith("pkt"):
+                    emit("recv %s t=%d d=@%s:%d" % (p, t, e, len(run.eps[e]["emits"]) - 1))
+                emit("tmo %s t=%d" % (e, t))
+            if fault == "reorder" and held is not None and t - connlib.BASE_T > 150:
+                emit("recv b t=%d d=@a:%d" % (t, held))
+                held = None
+            a = run.eps["a"]["conn"]
+            if t - connlib.BASE_T > 1500 and not a.outgoing_messages and not a.pending_retry_msg and not a.pending_callbacks:
                 break
         emit("dump a")
         emit("dump b")
@@ -241,6 +298,10 @@ def run(ctx):
             plan = (lambda k, e, trel, msgs, _l=lost, _k=kind, _d=dark: (e == "b") if _k == "acks" else
                     (e == "a" and trel < _d) if _k == "blackout" else (trel < _d) if _k == "blackout2" else (e == "a" and k in _l))
             cases.append(gen_size_case(real, rng, "z%d_%d" % (mtu, j), mtu, lengths, plan, lossy=3000 if kind.startswith("blackout") else None))
+    # overtaken by more newer messages than either receive window is wide
+    for j, n_other in enumerate([40, 250, 257, 300, 520][:ctx.scale(5, 5)]):
+        for fault in ("loss", "reorder"):
+            cases.append(gen_overtaken_case(real, rng, "zo%d_%s" % (n_other, fault), rng.choice([1500, 512]), n_other, fault))
     # mixed traffic under random loss, healed at the end
     for i in range(ctx.scale(20, 400)):
         mtu = rng.choice(mtus)
@@ -254,6 +315,8 @@ def run(ctx):
 
     logs, bad = connlib.run_cases(ctx, real2, cases, connlib.make_post(post_fn), "Conn(guaranteed delivery)", RULE, nontrivial, snapshots=False)
     for c in cases:
+        if connlib.reassembly_monitor(c, logs.get(core.case_id(c), []), ctx):
+            return
         monitor(c, logs.get(core.case_id(c), []), ctx)
         if any(f["kind"] != KNOWN_EXPIRY for f in ctx.failures):
             return
